@@ -22,6 +22,7 @@
 import MW.Lemmas.KsRefineOps2
 import MW.Lemmas.KsRefineSecrecy
 import MW.Lemmas.KsRefineToy
+import MW.Lemmas.KsRefineBound
 import MW.Props.C05
 namespace MW.Props.C05Abs
 open MW MW.Model.Secrets MW.Model.KsCodec MW.Model.KsBytes MW.KsRefine
@@ -43,6 +44,23 @@ theorem key_loc_injective (C : BCrypto) (L : Laws C) {K K' : Key} (hK : KeyOk K.
 
 /-- the empty tree represents the empty database -/
 theorem rep_init (C : BCrypto) (ρ : PubVal) : Rep C ρ (C05.reach []).db (fun _ => []) := rep_empty C ρ
+
+/-- `absDb` of a representing tree is the symbolic database, value by value concretised … -/
+theorem absDb_of_rep (C : BCrypto) (L : Laws C) (ρ : PubVal) (db : DB) (t : Tree) (h : Rep C ρ db t) (K : Key) (hK : KeyOk K.2) :
+    absDb C t K = (AMap.get db K).map (valBytes C ρ K) := rep_get L h K hK
+
+/-- … and nothing in the tree lies outside it: every stored byte string sits at the location of a symbolic key that holds
+    a term it is the concretisation of -/
+theorem absDb_complete (C : BCrypto) (L : Laws C) (ρ : PubVal) (db : DB) (t : Tree) (h : Rep C ρ db t)
+    (p : BPath) (kb v : Bytes) (hv : tget t (p, kb) = some v) :
+    ∃ K term, unloc C p kb = some K ∧ loc C K = (p, kb) ∧ AMap.get db K = some term ∧ absDb C t K = some v ∧
+      v = valBytes C ρ K term := by
+  obtain ⟨K, term, h1, h2, h3, h4⟩ := stored_is_conc L h hv
+  exact ⟨K, term, h1, h2, h3, by simp [absDb, h2, hv], h4⟩
+
+/-- every database whose keys are representable (account 1, indexes < 2^32) HAS a representing tree, for any public valuation -/
+theorem representable (C : BCrypto) (L : Laws C) (ρ : PubVal) (db : DB) (hk : ∀ e ∈ db, KeyOk e.1.2) : ∃ t, Rep C ρ db t :=
+  rep_exists C L ρ db hk
 
 -- ------------------------------------------------------------------ sym_write_refines_bytes
 
@@ -189,6 +207,17 @@ theorem no_clear_secret_bytes (C : BCrypto) (L : Laws C) (ρ : PubVal) (hind : I
     (h : Rep C ρ (C05.reach ops).db t) (p : BPath) (kb v : Bytes) (hv : tget t (p, kb) = some v) (s : Sec) :
     ¬ (C.atom s <:+: v) := no_secret_bytes L hind ops h hv s
 
+/-- every reachable state whose history passes uint32 restore hints (what the API can express) has a representing tree … -/
+theorem reach_representable (C : BCrypto) (L : Laws C) (ρ : PubVal) (ops : List Op) (hops : ∀ o ∈ ops, OpOk o) :
+    ∃ t, Rep C ρ (C05.reach ops).db t := MW.KsRefine.reach_representable C L ρ ops hops
+
+/-- … so the byte-level secrecy statement is about a tree in every such state -/
+theorem no_clear_secret_bytes_reach (C : BCrypto) (L : Laws C) (ρ : PubVal) (hind : Indep C ρ) (ops : List Op)
+    (hops : ∀ o ∈ ops, OpOk o) :
+    ∃ t, Rep C ρ (C05.reach ops).db t ∧ ∀ p kb v, tget t (p, kb) = some v → ∀ s : Sec, ¬ (C.atom s <:+: v) := by
+  obtain ⟨t, h⟩ := MW.KsRefine.reach_representable C L ρ ops hops
+  exact ⟨t, h, fun p kb v hv s => no_secret_bytes L hind ops h hv s⟩
+
 -- ------------------------------------------------------------------ non-vacuity
 
 /-- the assumptions are satisfiable together -/
@@ -207,6 +236,16 @@ example : (acctWrites (acctInOf Toy.toy Toy.ρ1 297 "W1" "W1" Toy.demoPass 0 0 (
 example : (newAddr (C05.reach [.create "W1" Toy.demoPass 128]) "W1").2 = .ok := by decide
 example : (chpub (C05.reach [.create "W1" Toy.demoPass 128]) "50756270617373313233343536" "4e657750756240393837").2 = .ok := by decide
 example : (importKS (C05.reach (C05.demo.take 7)) "K1" "5a7140506173733132").2 = .ok := by decide
+
+/-- hypothesis of `reach_representable` holds on the C05 demo history -/
+example : ∀ o ∈ C05.demo, OpOk o := by
+  intro o ho
+  simp only [C05.demo, List.mem_cons, List.not_mem_nil, or_false] at ho
+  rcases ho with rfl | rfl | rfl | rfl | rfl | rfl | rfl | rfl <;> trivial
+
+/-- hypothesis of `representable` holds on the C05 demo history (create, address, export, change of the public passphrase,
+    restart, remove, re-import): so a representing tree exists and the byte-level statements are about 21 stored values -/
+example : ∀ e ∈ (C05.reach C05.demo).db, KeyOk e.1.2 := by decide
 
 /-- the account-row size bound of `account_row_layout` holds for the toy boxes -/
 example : 8 + (Toy.toy.box [] []).length + (Toy.toy.box [] []).length < 4294967296 := by decide
